@@ -533,3 +533,97 @@ def save_method_unit(u: Unit):
                     i += 1
             u.oblige(p, f"save.method.reported_under_its_own_bucket_and_format[{tag}]", got == exp, {"got": str(got)[:300]}, METHOD_REPLAY)
         u.cover(f"save.method.cover[{tag}]", [1] * n_ret, lambda _: True)
+
+
+# ---- one fresh directory per started simulation: Outputs.create_output_folder and its call in run_mode -------------------------------
+RUNDIR_REPLAY = lambda w: {"code": """
+import tempfile, pathlib, numpy as np, pyxel, verif_probes as VP
+from pyxel.exposure import Exposure, Readout
+from pyxel.outputs import ExposureOutputs
+from pyxel.pipelines import DetectionPipeline, ModelFunction
+root = pathlib.Path(tempfile.mkdtemp())
+out = ExposureOutputs(output_folder=root, save_data_to_file=[{'detector.pixel.array': ['npy']}])
+mode = Exposure(readout=Readout(times=[1.0]), outputs=out)
+pipe = DetectionPipeline(charge_collection=[ModelFunction(func='verif_probes.writer', name='w', arguments={'pixel_add': 2.0})])
+dirs, VIOLATED, DETAIL = [], False, 'every started simulation wrote into a directory of its own'
+for k in range(3):
+    pyxel.run_mode(mode=mode, detector=VP.detector(), pipeline=pipe)
+    d = pathlib.Path(out.current_output_folder)
+    files = sorted(p.name for p in d.iterdir())
+    dirs.append(str(d))
+    if not files:
+        VIOLATED, DETAIL = True, f'simulation {k}: nothing written into {d}'; break
+if len(set(dirs)) != 3:
+    VIOLATED, DETAIL = True, f'three simulations started with the same outputs object wrote into {len(set(dirs))} director(ies): {sorted(set(dirs))}'
+""", "expect": "each run_mode call with outputs creates and uses a fresh directory, also when the same Outputs object is reused"}
+
+
+@unit("C19", "dir.per_run")
+def dir_per_run(u: Unit):
+    """Outputs.create_output_folder: whatever folder an EARLIER simulation left in the object, it calls create_output_directory (unit
+    dir.fresh) with its own output folder and custom name and keeps the directory that call returned. run_mode: the call
+    outputs.create_output_folder() is guarded by the presence of outputs only and precedes the dispatch on the running mode."""
+    fi = u.fn(f"{OO}::Outputs.create_output_folder")
+    oci = u.cls(f"{OO}::Outputs")
+    cfg = mk_cfg()
+    q = f"{OO}::create_output_directory"
+
+    def mkdir_contract(ex, args, kwargs, fr):
+        ex.hold["mk"] = (list(args), dict(kwargs))
+        ex.hold["new"] = FSM.mk_path(ex, z3.String("fresh_directory"))
+        return ex.hold["new"]
+    cfg.contracts[q] = Contract(q, mkdir_contract, "dir.fresh")
+    base_attr = cfg.lib_overrides.get(("opaque_attr", "path"))
+
+    def setup(ex):
+        ex.hold = {}
+        ex.hold["folder"] = FSM.mk_path(ex, z3.String("output_folder"))
+        earlier = FSM.mk_path(ex, z3.String("earlier_directory"))
+        me = ex.st.alloc(HObj(oci, {"_output_folder": ex.hold["folder"], "_custom_dir_name": VStr(z3.String("custom_name")),
+                                    "_current_output_folder": VMaybe(z3.Bool("used_before"), earlier)}))
+        ex.me = me
+        return [me], {}
+    ps = u.paths(fi, setup, cfg, label="Outputs.create_output_folder")
+    for p in ps:
+        if p.kind != "return":
+            u.oblige(p, "dir.per_run.no_raise", False, {"exc": p.exc_name()}, RUNDIR_REPLAY)
+            continue
+        h = p.ex.hold
+        a, k = h.get("mk", ([], {}))
+        folder = k.get("output_folder", a[0] if a else None)
+        name = k.get("custom_dir_name", a[1] if len(a) > 1 else None)
+        ok = "mk" in h and isinstance(folder, VOpaque) and folder.kind == "path" and isinstance(name, VStr)
+        u.oblige(p, "dir.per_run.always_asks_for_a_fresh_directory", z3.And(zb(ok), FSM.path_text(folder) == FSM.path_text(h["folder"]), z_str(name.v) == z3.String("custom_name")) if ok else z3.BoolVal(False),
+                 {"used_before": z3.Bool("used_before")}, RUNDIR_REPLAY)
+        cur = p.st.cell(p.ex.me).fields.get("_current_output_folder")
+        u.oblige(p, "dir.per_run.uses_the_directory_just_created", cur is h.get("new"), {"used_before": z3.Bool("used_before")}, RUNDIR_REPLAY)
+    u.cover("dir.per_run.cover", ps, lambda p: p.kind == "return")
+    # the call site in run_mode
+    rm = u.fn("pyxel/run.py::run_mode")
+    body = rm.node.body
+    idx_call, guard, idx_match = None, None, None
+    for i, st in enumerate(body):
+        if isinstance(st, ast.If) and any(isinstance(n, ast.Call) and isinstance(n.func, ast.Attribute) and n.func.attr == "create_output_folder" for n in ast.walk(st)):
+            idx_call, guard = i, st
+        if isinstance(st, ast.Match) and idx_match is None:
+            idx_match = i
+    detail = "no top-level `if <outputs>: <outputs>.create_output_folder()` found"
+    ok = False
+    if guard is not None:
+        t = guard.test
+        plain = isinstance(t, ast.Name) or (isinstance(t, ast.Compare) and len(t.ops) == 1 and isinstance(t.ops[0], ast.IsNot) and isinstance(t.left, ast.Name)
+                                            and isinstance(t.comparators[0], ast.Constant) and t.comparators[0].value is None)
+        name = t.id if isinstance(t, ast.Name) else (t.left.id if plain else None)
+        calls = [n for n in ast.walk(guard) if isinstance(n, ast.Call) and isinstance(n.func, ast.Attribute) and n.func.attr == "create_output_folder"]
+        direct = len(guard.body) >= 1 and any(isinstance(s2, ast.Expr) and s2.value in calls for s2 in guard.body) and not guard.orelse
+        same_obj = all(isinstance(c.func.value, ast.Name) and c.func.value.id == name for c in calls)
+        ok = bool(plain and direct and same_obj and idx_match is not None and idx_call < idx_match)
+        detail = f"guard `{ast.unparse(t)}`, call before the mode dispatch: {idx_match is not None and idx_call < idx_match}"
+    if guard is None:
+        # the call moved (a helper, another statement shape): not recognised -> undecided, the native scenario decides (stand-in)
+        u.undecide("dir.per_run.run_mode_creates_the_folder_whenever_outputs_are_given", rm.qualname, detail)
+    else:
+        u.static("dir.per_run.run_mode_creates_the_folder_whenever_outputs_are_given", ok, rm.qualname, detail, replay=RUNDIR_REPLAY)
+
+
+STANDIN = {r"dir\.per_run": RUNDIR_REPLAY}
